@@ -90,6 +90,9 @@ def check_schema(ctx, ast, fe, lits, tag, maxlen, extra):
     r = L.impl_compile(text)
     m = M([1, sa])
     case = {'schema': text}
+    m2 = M([10, sa])
+    if L.canon(m2) != L.canon(m):
+        ctx.disagree('model-internal', 'compile (gen_tree + flatten) and compile_pool (node pool) differ', case, m, m2)
     if not L.same_outcome(m, r):
         ctx.disagree('compile_lvs', 'different outcome (ok / error class)', case, m, r[1:] if r[0] == 'err' else 'ok')
         return
